@@ -12,7 +12,7 @@ func init() { props["C04"] = runC04 }
 
 func runC04(ctx *Ctx) error {
 	r, res := ctx.Rng, ctx.Res
-	res.Rule = "for each message (several sizes, with and without attachments) and data-block size, the transfer SOH..EOT as sent by a conforming master is altered in transit: every single-byte substitution at every offset (quick: two values per offset, thorough: eight), every single-byte deletion, insertions at every offset, checksum-compensating pairs (+d at i, -d at j), and checksum-compensating changes of the payload's embedded CRC-16 (forced to 0000, ffff, swapped) and size field. The altered stream is fed to a real slave Session; its answer stream is fed to a real master Session holding the message. Oracle: a message handed to the inbound handler is byte-identical to the queued one (alterations that leave the payload intact, e.g. in the title, are the ones an independent reference accepts too), otherwise nothing is delivered; the sender records the message as sent only if the receiver delivered it. Correspondence: the receiving side vs the model side on the same altered bytes. Non-trivial: alteration inside the framed payload; distinct by (message, alteration)."
+	res.Rule = "for each message (several sizes, with and without attachments) and data-block size, the transfer SOH..EOT as sent by a conforming master is altered in transit: every single-byte substitution at every offset (quick: two values per offset, thorough: eight), every single-byte deletion, insertions at every offset, checksum-compensating pairs (+d at i, -d at j), and checksum-compensating changes of the payload's embedded CRC-16 (forced to 0000, ffff, swapped) and size field; the same in the first transfer of a block of two accepted messages, the second being intact. The altered stream is fed to a real slave Session; its answer stream is fed to a real master Session holding the message. Oracle: a message handed to the inbound handler is byte-identical to the queued one (alterations that leave the payload intact, e.g. in the title, are the ones an independent reference accepts too), otherwise nothing is delivered; the sender records the message as sent only if the receiver delivered it. Correspondence: the receiving side vs the model side on the same altered bytes. Non-trivial: alteration inside the framed payload; distinct by (message, alteration)."
 	var lines, impl []string
 	var cases []interface{}
 	nmsg := ctx.N(3, 12)
@@ -149,6 +149,87 @@ func runC04(ctx *Ctx) error {
 			if a.kind == "compensating-pair" && len(res.Samples) < 2 {
 				res.Sample(cs)
 			}
+		}
+	}
+	// a block of TWO accepted messages whose FIRST transfer is damaged in a way only the
+	// payload's own CRC-16 / size can reveal (frame checksum compensated); the second transfer is
+	// intact: neither may the damaged one be delivered, nor may the sender record it as sent
+	for bi := 0; bi < ctx.N(3, 12); bi++ {
+		var ms []*fbb.Message
+		var sm []scriptMsg
+		var wants [][]byte
+		for k := 0; k < 2; k++ {
+			mid := r.Mid()
+			m := r.Message("LA5NTA", mid)
+			w, _ := m.Bytes()
+			ms, wants = append(ms, m), append(wants, w)
+			sm = append(sm, scriptMsg{mid, len(w), compressB2(w)})
+		}
+		chunk := []int{250, 125, 256}[bi%3]
+		stream := scriptMaster(sm, chunk)
+		lo := bytes.Index(stream, []byte("\r\x01")) + 1
+		q := bytes.IndexByte(stream[lo:], 0x02)
+		if q < 0 || len(sm[0].CData) < 16 {
+			continue
+		}
+		first := lo + q + 2
+		firstLen := int(stream[lo+q+1])
+		if firstLen == 0 {
+			firstLen = 256
+		}
+		if firstLen < 12 {
+			continue
+		}
+		slave := sideCfg{Master: false, Mycall: "LA1B", Target: "LA5NTA", Locator: "JO59jw", Handler: true, Policy: map[string]fbb.ProposalAnswer{}, Fail: map[string]bool{}}
+		master := sideCfg{Master: true, Mycall: "LA5NTA", Target: "LA1B", Locator: "JP20qh", Handler: true, Outbox: ms, Policy: map[string]fbb.ProposalAnswer{}, Fail: map[string]bool{}}
+		for _, variant := range []string{"crc-0000", "crc-swapped", "size+1", "pair", "unaltered"} {
+			b := append([]byte(nil), stream...)
+			old := int(b[first]) + int(b[first+1]) + int(b[first+2]) + int(b[first+3])
+			switch variant {
+			case "crc-0000":
+				b[first], b[first+1] = 0, 0
+			case "crc-swapped":
+				b[first], b[first+1] = b[first+1], b[first]
+			case "size+1":
+				b[first+2]++
+			case "pair":
+				d := byte(1 + r.Intn(255))
+				b[first+7] += d
+				b[first+9] -= d
+			}
+			now := int(b[first]) + int(b[first+1]) + int(b[first+2]) + int(b[first+3])
+			b[first+6] += byte(old - now)
+			altered := !bytes.Equal(b, stream)
+			cs := map[string]interface{}{"block": "two accepted messages, the first transfer altered", "alteration": variant, "mids": []string{sm[0].Mid, sm[1].Mid}, "block_size": chunk}
+			ctx.Mark(cs)
+			ob := runSide(slave, b, 0)
+			res.Eval(fmt.Sprintf("two:%d:%s", bi, variant), altered)
+			res.Count("two-message-block:" + variant)
+			if ob.Res == "panic" || ob.Res == "hang" {
+				res.Fail(Failure{Kind: "oracle", Site: "receiver-" + ob.Res, Case: cs, Detail: ob.Err})
+				continue
+			}
+			var raw []byte
+			for _, w := range ob.Writes {
+				raw = append(raw, w...)
+			}
+			oa := runSide(master, raw, 0)
+			for k := 0; k < 2; k++ {
+				mid := sm[k].Mid
+				delivered := ob.Handler.processed[mid] > 0
+				if delivered && !bytes.Equal(ob.Handler.inbox[mid], wants[k]) {
+					res.Fail(Failure{Kind: "oracle", Site: "damaged-message-delivered", Case: cs, Detail: mid})
+				}
+				if !altered && !delivered {
+					res.Fail(Failure{Kind: "oracle", Site: "unaltered-not-delivered", Case: cs, Detail: mid + " " + ob.Res + " " + ob.Err})
+				}
+				if oa.Res != "panic" && oa.Res != "hang" && oa.Handler.sent[mid] > 0 && !delivered {
+					res.Fail(Failure{Kind: "oracle", Site: "sent-but-not-delivered", Case: cs, Detail: mid})
+				}
+			}
+			lines = append(lines, slave.modelLine(b))
+			impl = append(impl, ob.String())
+			cases = append(cases, cs)
 		}
 	}
 	out, err := ctx.Model.RunParallel(lines, 14)
